@@ -432,6 +432,42 @@ func atomicRun(args []string) int {
 			}
 		}
 	}
+	// 5. one history object saving several times (a long-running caller): a save that fails - the file-size limit is lowered
+	// for that one call - must leave nothing behind that spoils the next, successful save
+	for _, k := range []uint64{0, 1, 40, 300} {
+		hp := filepath.Join(tmpDir(), fmt.Sprintf("hist-resave-%d", k), "search_history.json")
+		os.MkdirAll(filepath.Dir(hp), 0o755)
+		h := history.NewSearchHistory(hp, 100)
+		for i := 0; i < 4; i++ {
+			h.AddEntry(fmt.Sprintf("old query %d", i), i, "ctx", 0)
+		}
+		ok1 := h.Save() == nil
+		var lim, cur syscall.Rlimit
+		syscall.Getrlimit(syscall.RLIMIT_FSIZE, &cur)
+		lim = cur
+		lim.Cur = k
+		h.AddEntry("query during the failing save", 1, "ctx", 0)
+		syscall.Setrlimit(syscall.RLIMIT_FSIZE, &lim)
+		failed := h.Save() != nil
+		syscall.Setrlimit(syscall.RLIMIT_FSIZE, &cur)
+		h.AddEntry("query after it", 2, "ctx", 0)
+		ok3 := h.Save() == nil
+		b, _ := os.ReadFile(hp)
+		qs, parsed := histQueries(b)
+		want := []string{}
+		for _, e := range h.Entries {
+			want = append(want, e.Query)
+		}
+		h2 := history.NewSearchHistory(hp, 100)
+		loads := h2.Load() == nil && parsed
+		after := "damaged"
+		if loads && strings.Join(qs, "\x00") == strings.Join(want, "\x00") {
+			after = "new"
+		}
+		d.tr++
+		d.w.emit(&atEv{Op: "fault", Tr: d.tr, File: "history", Cmd: "library", Kind: "save-after-failed-save", At: fmt.Sprint(k), After: after, Loads: loads, HadOld: true,
+			Success: ok3, Note: fmt.Sprintf("first save ok=%v, save under a %d-byte file-size limit failed=%v, third save ok=%v", ok1, k, failed, ok3)})
+	}
 	d.w.close()
 	fmt.Printf("{\"scenarios\": %d, \"events\": %d}\n", len(scenarios), d.w.n)
 	return 0
